@@ -1,4 +1,4 @@
-import GmqttVerif.Proofs.RedisStore
+import GmqttVerif.Model.RedisDecoded
 /-
   Client histories on the redis backend: which storage commands the broker issues for every step of a client's life,
   as the (patched) code does it — `server.registerClient`, `removeSessionLocked`, `subscribeHandler`,
@@ -73,7 +73,7 @@ def refreshCmds (c : Bytes) (ie now : Nat) : List Elem → Nat → List DCmd
       (if ie != 0 then [DCmd.lset c i { e with expiry := now + ie }] else []) ++ refreshCmds c ie now es (i + 1)
     else []
 
-def Elem.assign (e : Elem) (pid now ie : Nat) : Elem :=
+def assignElem (e : Elem) (pid now ie : Nat) : Elem :=
   let e1 := e.withId pid
   if ie != 0 then { e1 with expiry := now + ie } else e1
 
@@ -85,7 +85,7 @@ def deliverCmds (c : Bytes) (ie now : Nat) : List Elem → List Nat → Nat → 
     else
       match pids with
       | [] => []
-      | p :: ps => DCmd.lset c cur (e.assign p now ie) :: deliverCmds c ie now es ps (cur + 1)
+      | p :: ps => DCmd.lset c cur (assignElem e p now ie) :: deliverCmds c ie now es ps (cur + 1)
 
 /-- number of entries that became in-flight -/
 def deliverCount : List Elem → List Nat → Nat
